@@ -653,7 +653,9 @@ SPECS["C12"] = dict(
                  "inside it (1 <= nev <= n-1, nev < ncv <= n; general solvers 1 <= nev <= n-2, nev+2 <= ncv <= n). (b) Source level (symx): compute() with each of the nine SortRule values as selection and as sorting "
                  "raises invalid_argument iff the rule is not supported by that solver family (symmetric incl. shift-invert and nev = 1; general incl. real-shift); init() rejects a zero and a sub-threshold "
                  "start vector before applying the operator; all ten wrappers reject non-square shapes up to 4x4; sigma == 0 is rejected in buckling and Cayley mode and only there (symbolic sigma); argsort "
-                 "rejects rules undefined for real vectors. A rejected PartialSVDSolver construction leaks nothing (concrete replay of the fixed defect)."),
+                 "rejects rules undefined for real vectors. Leak clause (concrete companion program, enumeration - no solver verdict): for all 12 solver classes incl. the five generalized modes, Davidson and the "
+                 "partial SVD, constructions with 12 (nev, ncv) pairs around every documented bound (and sigma = 0 in buckling / Cayley mode) throw invalid_argument exactly outside the range and leave no "
+                 "operator-new or malloc allocation alive (global allocation counters); it contains the replay of the fixed PartialSVDSolver leak."),
     functions=["HermEigsBase / GenEigsBase lvalue constructors (via 6 solver classes, IR)", "HermEigsBase rvalue-operator constructor + create_op_container (IR; counterexamples replayed through the real SymGEigsSolver<RegularInverse>)", "HermEigsBase::sort_ritzpair, retrieve_ritzpair -> argsort; GenEigsBase::retrieve_ritzpair, sort_ritzpair", "Arnoldi::init zero check",
                "SymGEigsShiftSolver::set_shift_and_move", "wrapper constructors (shape checks)"],
     bounds={"constructor triples": "all 64-bit Index values with n >= 0", "rules": "9 x {selection, sorting} x 5 solver configurations", "non-square": "all r x c, r != c <= 4"},
